@@ -486,9 +486,15 @@ class TaintEngine:
                 return frozenset()
         # <text>.replace(<secret>, <constant>): the secret substring itself
         # is replaced -- the masking idiom, whatever the helper is called
+        def constant(x):
+            # '***'  or  '***'.encode()
+            if isinstance(x, ast.Call) and \
+                    isinstance(x.func, ast.Attribute) and \
+                    x.func.attr == 'encode' and not x.args:
+                x = x.func.value
+            return isinstance(x, ast.Constant)
         if isinstance(fn, ast.Attribute) and fn.attr == 'replace' and \
-                len(call.args) == 2 and \
-                isinstance(call.args[1], ast.Constant) and \
+                len(call.args) == 2 and constant(call.args[1]) and \
                 self.labels(f, call.args[0], state):
             return frozenset()
         cal = self.prog.callee(f, call)
